@@ -10,6 +10,8 @@ import (
 	"io"
 	"os"
 	"strings"
+	"sync"
+	"sync/atomic"
 	"time"
 
 	"github.com/golang/protobuf/proto"
@@ -45,6 +47,8 @@ type rig struct {
 	written  int // flushFn calls accounted as "on disk"
 	marked   int
 	lastS2   time.Time
+	mu       sync.Mutex // guards disk (concurrent cases: flushFn runs freely)
+	flushed  int64      // concurrent cases: flushFn calls that have returned their data
 }
 
 func newRig(cap int, iv int64, hf bool, real bool) *rig {
@@ -250,7 +254,10 @@ func (g *rig) loop(t int64) (cls int, got []ev, last int64) {
 // ReadPersistedLogBuffer over the captured segments, with the real ReadEachLogEntry
 func (g *rig) diskRead(t int64) (got []ev, processed int64) {
 	sizeBuf := make([]byte, 4)
-	for _, segm := range g.disk {
+	g.mu.Lock()
+	disk := g.disk[:len(g.disk):len(g.disk)]
+	g.mu.Unlock()
+	for _, segm := range disk {
 		var err error
 		processed, err = filer.ReadEachLogEntry(bytes.NewReader(segm), sizeBuf, t, func(e *filer_pb.LogEntry) error {
 			got = append(got, evOf(e))
@@ -467,7 +474,7 @@ func (c *caseGen) drain() {
 }
 
 func (c *caseGen) finish(kind string, cap int, iv int64, hf bool, t0 int64) {
-	term := fmt.Sprintf("{| c_cap := %s; c_iv := %s; c_hf := %s; c_t0 := %s; c_ops := %s; c_impl := %s |}",
+	term := fmt.Sprintf("{| c_cap := %s; c_iv := %s; c_hf := %s; c_t0 := %s; c_ops := %s; c_impl := %s; c_mode := 0; c_segs := nil; c_readers := nil |}",
 		num(int64(cap)), num(iv), hx.Bool(hf), num(t0), consList(c.ops), consList(c.impl))
 	nontrivial := len(c.u.got) > 0 && c.g.sealed > 0
 	canon := fmt.Sprintf("cap=%d iv=%d hf=%v t0=%d %s", cap, iv, hf, t0, strings.Join(c.canon, ";"))
@@ -495,8 +502,8 @@ func newCase(out *hx.Out, cap int, iv int64, hf bool, real bool, t0 int64) *case
 
 const farIv = int64(1000000000000000)
 
-// raceStress is only for a manual run of a `go build -race` binary (needs cgo, so it is not
-// part of bin/check): concurrent AddToBuffer / ReadFromBuffer / real flushes on NewLogBuffer-
+// raceStress: manual mode (C22_RACE_STRESS=1) kept for experiments; bin/check's race-detector
+// stage runs the normal cases (concCase / stressCase) under -race instead.  Concurrent AddToBuffer / ReadFromBuffer / real flushes on NewLogBuffer-
 // like buffers, real functions only. Supporting evidence for the "no data races" clause.
 func raceStress() {
 	lb := log_buffer.NewLogBufferVerif("stress", 4096, time.Hour, func(a, b time.Time, buf []byte) {}, func() {})
@@ -527,22 +534,369 @@ func main() {
 		return
 	}
 	out := hx.Flags("C22", 300)
-	out.Rule = "sequential schedules on the real LogBuffer (hook constructor with 64..333-byte buffers; a few cases on NewLogBuffer with 4 MiB buffers and MiB payloads): Add with explicit timestamps (increasing, equal, decreasing, jumps beyond the flush interval), interval Seal, FlushWrite/FlushMark (flushFn gated by the harness), stateless Read/Loop/DiskRead at boundary timestamps (0, before first, exactly at / one below / one above an assigned ts, after last), and a subscriber (SubStep/SubLoop) started at a boundary timestamp; every case ends with a drain (flush all, 8 subscriber steps). Modes: uniform payload length, big (every entry larger than the buffer), varied lengths; flushes may lag arbitrarily in all of them. Case 0 is the schedule that exposed the repaired SealBuffer aliasing (3 unflushed sealed buffers, must be clean), case 1 the fixed witness of known finding 0 (4 seals without a completed flush), case 2 runs on NewLogBuffer itself. non-trivial = at least one rotation and the subscriber received events; distinct = canonical parameter+op list"
+	out.Rule = "sequential schedules on the real LogBuffer (hook constructor with 64..333-byte buffers; a few cases on NewLogBuffer with 4 MiB buffers and MiB payloads): Add with explicit timestamps (increasing, equal, decreasing, jumps beyond the flush interval), interval Seal, FlushWrite/FlushMark (flushFn gated by the harness), stateless Read/Loop/DiskRead at boundary timestamps (0, before first, exactly at / one below / one above an assigned ts, after last), and a subscriber (SubStep/SubLoop) started at a boundary timestamp; every case ends with a drain (flush all, 8 subscriber steps). Modes: uniform payload length, big (every entry larger than the buffer), varied lengths; flushes may lag arbitrarily in all of them. In shard 0 (and in the race-detector run) case 0 is the schedule that exposed the repaired SealBuffer aliasing (3 unflushed sealed buffers, must be clean), case 1 the fixed witness of known finding 0 (4 seals without a completed flush), case 3 the flushFn=nil subscriber parked behind the last seal; case 2 runs on NewLogBuffer itself. One case in 8 (every second one in the race-detector run) is a history recorded from real goroutines (c_mode 1: 1-2 appenders + interval sealer in a known order and paced to at most two unflushed sealed buffers, real loopFlush with a slow flushFn, 1-3 subscriber goroutines, concurrent LoopProcessLogData calls at boundary timestamps; everything flushed at the end and the subscribers run to quiescence), one in 40 a free-running stress on NewLogBuffer with its real 2 ms loopInterval and Shutdown during reads (c_mode 2). non-trivial = at least one rotation and the subscriber received events; distinct = canonical parameter+op list"
 	root := hx.NewRng(out.Seed)
+	// bin/check runs shard k with seed*1000+k and the race-detector stage with seed*1000+900
+	shard := int(out.Seed % 1000)
+	fixed := shard == 0 || shard == 900
 	for i := 0; i < out.N; i++ {
 		r := root.Fork()
 		switch {
-		case i == 0:
+		case fixed && i == 0:
 			witness0(out)
-		case i == 1:
+		case fixed && i == 1:
 			witness1(out)
+		case fixed && i == 3:
+			witnessNilFlush(out)
 		case i == 2:
 			realCase(out, r)
+		case shard == 900 && i%2 == 1, i%8 == 3:
+			concCase(out, r)
+		case shard == 900 && i%6 == 0, i%40 == 7:
+			stressCase(out, r)
 		default:
 			randomCase(out, r)
 		}
 	}
 	out.Write()
+}
+
+// ---- histories from real goroutines ----
+
+type readerHist struct {
+	kind     int
+	t0       int64
+	complete bool
+	got      []ev
+}
+
+func (h readerHist) term() string {
+	return fmt.Sprintf("(RH %d %s %s %s)", h.kind, num(h.t0), hx.Bool(h.complete), evList(h.got))
+}
+
+// the records of one flushed buffer
+func segEvents(b []byte) []ev {
+	var l []ev
+	_, err := filer.ReadEachLogEntry(bytes.NewReader(b), make([]byte, 4), 0, func(e *filer_pb.LogEntry) error {
+		l = append(l, evOf(e))
+		return nil
+	})
+	if err != io.EOF {
+		panic(fmt.Sprint("flushed buffer does not parse: ", err))
+	}
+	return l
+}
+
+func segsTerm(disk [][]byte) (string, int) {
+	var xs []string
+	n := 0
+	for _, b := range disk {
+		l := segEvents(b)
+		n += len(l)
+		xs = append(xs, evList(l))
+	}
+	return consList(xs), n
+}
+
+type addOp struct {
+	delta int64
+	plen  int
+	pause time.Duration
+}
+
+// paced concurrent history (mode 1): 1-2 appenders and an interval sealer (serialised among
+// themselves by mutMu, so their calls have a definite order, and waiting while two sealed
+// buffers are unflushed, which keeps the history outside known finding 0), the real
+// loopFlush goroutine with a flushFn that takes its time, subscriber goroutines
+// (persisted log / real LoopProcessLogData) and a goroutine of stateless LoopProcessLogData calls.
+func concCase(out *hx.Out, r *hx.Rng) {
+	cap := r.PickInt([]int{100, 128, 200, 333, 512})
+	iv := pickI64(r, []int64{farIv, farIv, 200, 1000})
+	base := int64(100000) + int64(r.Intn(1000))
+	c := &caseGen{key: []byte("k"), out: out, u: &subscriber{}}
+	g := &rig{hf: true}
+	c.g = g
+	ndelay := r.Range(3, 9)
+	delays := make([]time.Duration, ndelay)
+	for i := range delays {
+		delays[i] = time.Duration(r.PickInt([]int{0, 0, 5, 20, 80, 300})) * time.Microsecond
+	}
+	var calls int64
+	g.lb = log_buffer.NewLogBufferVerif("c22conc", cap, time.Duration(iv), func(a, b time.Time, buf []byte) {
+		k := atomic.AddInt64(&calls, 1)
+		if d := delays[int(k)%ndelay]; d > 0 {
+			time.Sleep(d)
+		}
+		g.mu.Lock()
+		g.disk = append(g.disk, append([]byte(nil), buf...))
+		g.mu.Unlock()
+		atomic.AddInt64(&g.flushed, 1)
+	}, func() {})
+
+	nApp := r.Range(1, 2)
+	progs := make([][]addOp, nApp)
+	total := 0
+	for a := range progs {
+		n := r.Range(8, 22)
+		total += n
+		for k := 0; k < n; k++ {
+			op := addOp{delta: int64(r.Range(1, 25)), plen: r.Range(4, 60), pause: time.Duration(r.PickInt([]int{0, 0, 2, 10, 40})) * time.Microsecond}
+			switch d := r.Intn(20); {
+			case d == 0:
+				op.delta = 0
+			case d == 1:
+				op.delta = -int64(r.Range(1, 20))
+			case d == 2 && iv != farIv:
+				op.delta = iv + int64(r.Range(0, 5))
+			}
+			if r.Chance(1, 12) {
+				op.plen = cap + r.Range(-20, 30)
+			}
+			progs[a] = append(progs[a], op)
+		}
+	}
+	nSeal := r.Range(0, 4)
+	sealPause := time.Duration(r.PickInt([]int{5, 30, 100})) * time.Microsecond
+	nSubs := r.Range(1, 3)
+	subT0 := make([]int64, nSubs)
+	for i := range subT0 {
+		subT0[i] = pickI64(r, []int64{0, base - 1, base, base + int64(r.Intn(120)), base + int64(r.Intn(300))})
+	}
+	nLoops := r.Range(2, 6)
+	loopT := make([]int64, nLoops)
+	for i := range loopT {
+		loopT[i] = pickI64(r, []int64{0, base, base + int64(r.Intn(60)), base + int64(r.Intn(200)), base + int64(r.Intn(500))})
+	}
+	canon := fmt.Sprintf("conc cap=%d iv=%d progs=%v seals=%d subs=%v loops=%v delays=%v", cap, iv, progs, nSeal, subT0, loopT, delays)
+
+	var mutMu sync.Mutex
+	clock := base
+	pace := func() { // returns holding mutMu
+		for {
+			mutMu.Lock()
+			if int64(g.sealed)-atomic.LoadInt64(&g.flushed) <= 1 {
+				return
+			}
+			mutMu.Unlock()
+			time.Sleep(20 * time.Microsecond)
+		}
+	}
+	var mutators, readers sync.WaitGroup
+	for a := range progs {
+		mutators.Add(1)
+		go func(prog []addOp) {
+			defer mutators.Done()
+			for _, op := range prog {
+				if op.pause > 0 {
+					time.Sleep(op.pause)
+				}
+				pace()
+				ts := clock + op.delta
+				if ts < 1 {
+					ts = 1
+				}
+				if ts > clock {
+					clock = ts
+				}
+				c.add(ts, op.plen)
+				mutMu.Unlock()
+			}
+		}(progs[a])
+	}
+	mutators.Add(1)
+	go func() {
+		defer mutators.Done()
+		for k := 0; k < nSeal; k++ {
+			time.Sleep(sealPause)
+			pace()
+			c.seal()
+			mutMu.Unlock()
+		}
+	}()
+	var stop int32
+	subs := make([]*subscriber, nSubs)
+	for i := range subs {
+		subs[i] = &subscriber{lastRead: subT0[i], onDisk: true}
+		readers.Add(1)
+		go func(u *subscriber) {
+			defer readers.Done()
+			for atomic.LoadInt32(&stop) == 0 {
+				u.step(g, true)
+				time.Sleep(3 * time.Microsecond)
+			}
+		}(subs[i])
+	}
+	loops := make([]readerHist, nLoops)
+	readers.Add(1)
+	go func() {
+		defer readers.Done()
+		for i, t := range loopT {
+			cls, l, _ := g.loop(t)
+			if cls == 4 {
+				panic("LoopProcessLogData: undefined class in a concurrent case")
+			}
+			loops[i] = readerHist{kind: 1, t0: t, got: l}
+			time.Sleep(15 * time.Microsecond)
+		}
+	}()
+	mutators.Wait()
+	// everything sealed so far gets flushed and acknowledged
+	deadline := time.Now().Add(20 * time.Second)
+	for {
+		st := g.lb.StateVerif()
+		want := st.PrevStop[2]
+		if atomic.LoadInt64(&g.flushed) >= int64(g.sealed) && (g.sealed == 0 || g.lb.LastFlushTimeVerif().Equal(want)) {
+			break
+		}
+		if time.Now().After(deadline) {
+			panic("flush does not complete")
+		}
+		time.Sleep(50 * time.Microsecond)
+	}
+	atomic.StoreInt32(&stop, 1)
+	readers.Wait()
+	var hs []string
+	anyGot := false
+	for i, u := range subs {
+		for k := 0; k < 8; k++ {
+			u.step(g, k%3 == 2)
+		}
+		if u.memErr == 4 {
+			panic("subscriber: undefined class in a concurrent case")
+		}
+		anyGot = anyGot || len(u.got) > 0
+		hs = append(hs, readerHist{kind: 0, t0: subT0[i], complete: true, got: u.got}.term())
+	}
+	for _, h := range loops {
+		hs = append(hs, h.term())
+	}
+	g.lb.Shutdown()
+	// Shutdown's copyToFlush is flushed by loopFlush before it exits
+	want := int64(g.sealed)
+	if g.lb.StateVerif().PrevStop[2] != g.lastS2 {
+		want++
+	}
+	for atomic.LoadInt64(&g.flushed) < want {
+		if time.Now().After(deadline) {
+			panic("final flush does not complete")
+		}
+		time.Sleep(50 * time.Microsecond)
+	}
+	g.mu.Lock()
+	segs, nev := segsTerm(g.disk)
+	nseg := len(g.disk)
+	g.mu.Unlock()
+	if nev != total {
+		panic(fmt.Sprintf("flushed %d records, appended %d", nev, total))
+	}
+	term := fmt.Sprintf("{| c_cap := %s; c_iv := %s; c_hf := true; c_t0 := 0; c_ops := %s; c_impl := %s; c_mode := 1; c_segs := %s; c_readers := %s |}",
+		num(int64(cap)), num(iv), consList(c.ops), consList(c.impl), segs, consList(hs))
+	out.Add(term, canon, nseg > 1 && anyGot, "concurrent-paced")
+	out.Count(fmt.Sprintf("conc:appenders:%d", nApp), 1)
+	out.Count(fmt.Sprintf("conc:subscribers:%d", nSubs), 1)
+	out.Count("conc:flushed-buffers", nseg)
+}
+
+// free-running stress (mode 2) on NewLogBuffer itself: the real loopInterval goroutine
+// (2 ms), unserialised appenders, LoopProcessLogData readers that wait for data, Shutdown
+// while they read.  Nothing is paced, so known finding 0 may strike: only order, no
+// duplicate and no invented event is required of the readers.
+func stressCase(out *hx.Out, r *hx.Rng) {
+	g := &rig{hf: true}
+	iv := int64(2 * time.Millisecond)
+	delay := time.Duration(r.PickInt([]int{0, 10, 100})) * time.Microsecond
+	g.lb = log_buffer.NewLogBuffer("c22stress", time.Duration(iv), func(a, b time.Time, buf []byte) {
+		if delay > 0 {
+			time.Sleep(delay)
+		}
+		g.mu.Lock()
+		g.disk = append(g.disk, append([]byte(nil), buf...))
+		g.mu.Unlock()
+	}, func() {})
+	nApp := 2
+	per := r.Range(60, 120)
+	step := int64(r.PickInt([]int{1000, 100000, 400000})) // event time per add: up to 0.4 ms
+	base := int64(1000000)
+	plen := r.Range(8, 200)
+	t0s := []int64{0, base + step*int64(r.Intn(per))}
+	canon := fmt.Sprintf("stress per=%d step=%d plen=%d t0=%v delay=%v", per, step, plen, t0s, delay)
+	var apps, readers sync.WaitGroup
+	var clock int64 = base
+	for a := 0; a < nApp; a++ {
+		apps.Add(1)
+		go func(a int) {
+			defer apps.Done()
+			for k := 0; k < per; k++ {
+				ts := atomic.AddInt64(&clock, step)
+				g.lb.AddToBuffer([]byte("k"), payload(uint64(a*100000+k+1), plen), ts)
+				if k%16 == 15 {
+					time.Sleep(300 * time.Microsecond)
+				}
+			}
+		}(a)
+	}
+	var stop int32
+	hist := make([]readerHist, len(t0s))
+	for i, t0 := range t0s {
+		readers.Add(1)
+		hist[i] = readerHist{kind: 1, t0: t0}
+		go func(h *readerHist) {
+			defer readers.Done()
+			t := h.t0
+			for atomic.LoadInt32(&stop) == 0 {
+				last, err := g.lb.LoopProcessLogData("c22stress", time.Unix(0, t), func() bool {
+					time.Sleep(50 * time.Microsecond)
+					return atomic.LoadInt32(&stop) == 0
+				}, func(e *filer_pb.LogEntry) error {
+					h.got = append(h.got, evOf(e))
+					return nil
+				})
+				t = last.UnixNano()
+				if err == log_buffer.ResumeFromDiskError {
+					// served from the persisted log: the flushed buffers
+					l, p := g.diskRead(t)
+					h.got = append(h.got, l...)
+					if p != 0 {
+						t = p
+					}
+					time.Sleep(50 * time.Microsecond)
+				}
+			}
+		}(&hist[i])
+	}
+	apps.Wait()
+	time.Sleep(time.Duration(r.Intn(3)) * time.Millisecond)
+	g.lb.Shutdown() // while the readers read
+	time.Sleep(3 * time.Millisecond)
+	atomic.StoreInt32(&stop, 1)
+	readers.Wait()
+	deadline := time.Now().Add(20 * time.Second)
+	for {
+		g.mu.Lock()
+		_, nev := segsTerm(g.disk)
+		g.mu.Unlock()
+		if nev == nApp*per {
+			break
+		}
+		if time.Now().After(deadline) {
+			panic("stress: not everything was flushed")
+		}
+		time.Sleep(time.Millisecond)
+	}
+	g.mu.Lock()
+	segs, _ := segsTerm(g.disk)
+	nseg := len(g.disk)
+	g.mu.Unlock()
+	var hs []string
+	anyGot := false
+	for _, h := range hist {
+		anyGot = anyGot || len(h.got) > 0
+		hs = append(hs, h.term())
+	}
+	term := fmt.Sprintf("{| c_cap := %s; c_iv := %s; c_hf := true; c_t0 := 0; c_ops := nil; c_impl := nil; c_mode := 2; c_segs := %s; c_readers := %s |}",
+		num(realBufferSize), num(iv), segs, consList(hs))
+	out.Add(term, canon, nseg > 1 && anyGot, "concurrent-stress")
+	out.Count("stress:flushed-buffers", nseg)
 }
 
 // regression case for the repaired SealBuffer aliasing: three sealed, unflushed buffers;
@@ -573,6 +927,25 @@ func witness1(out *hx.Out) {
 	c.sub(true)
 	c.drain()
 	c.finish("witness-finding0", 100, farIv, true, 0)
+}
+
+// flushFn = nil (the aggregated buffer): a subscriber behind the last seal is parked on the
+// (empty) persisted log for ever (c22_nil_flush_liveness_refuted); one that is level with
+// the seal goes on receiving from memory
+func witnessNilFlush(out *hx.Out) {
+	c := newCase(out, 100, farIv, false, false, 0)
+	c.add(1000, 12)
+	c.seal()
+	c.read(0)    // between Seal and the next Add: ResumeFromDisk
+	c.read(1000) // level with the seal: nil
+	c.read(1001)
+	c.sub(false)
+	c.sub(false)
+	c.add(1010, 12)
+	c.read(1000)
+	c.loop(999)
+	c.drain()
+	c.finish("witness-nilflush-parked", 100, farIv, false, 0)
 }
 
 // NewLogBuffer itself: 4 MiB buffers, MiB payloads
@@ -655,6 +1028,10 @@ func randomCase(out *hx.Out, r *hx.Rng) {
 			}
 		case k < 52:
 			c.seal()
+			if r.Chance(1, 2) { // a reader between Seal and the next Add (startTime = stopTime = Unix(0,0))
+				c.read(c.boundary(r, base))
+				out.Count("read:right-after-seal", 1)
+			}
 		case k < 60:
 			c.flushWrite()
 		case k < 68:
